@@ -7,9 +7,6 @@ From IonV Require Import Base.Wire Bin.Bits Data.Ion Bin.BitStream Bin.BinReader
 Import ListNotations.
 Open Scope N_scope.
 
-(* the code that exists: the known nil dereferences panic *)
-Definition kp_code : forall A : Type, res A := fun A => Panic.
-
 Definition looks_binary (x : list N) : bool :=
   match x with
   | a :: _ :: _ :: d :: _ => (a =? 224) && (d =? 234)
@@ -81,7 +78,7 @@ Definition drv_textread (cmd : list N) (args : list (list N)) : option (list N) 
       | Some x, Some p =>
         if looks_binary x
         then Some (join_sp (snd (r_run ts_ok_default (r_init x (tok_is e "1")) p [])))
-        else Some (join_sp (snd (x_run parse_decimal_text parse_ts_text kp_code (x_init x (tok_is e "1")) p [])))
+        else Some (join_sp (snd (x_run parse_decimal_text parse_ts_text (x_init x (tok_is e "1")) p [])))
       | _, _ => None
       end
     | _ => None
@@ -90,7 +87,7 @@ Definition drv_textread (cmd : list N) (args : list (list N)) : option (list N) 
     match args with
     | [e; b] =>
       option_map (fun x => if looks_binary x then join_sp (fst (traverse ts_ok_default x (tok_is e "1")))
-                           else join_sp (x_traverse parse_decimal_text parse_ts_text kp_code x (tok_is e "1")))
+                           else join_sp (x_traverse parse_decimal_text parse_ts_text x (tok_is e "1")))
                  (parse_xhex b)
     | _ => None
     end
